@@ -88,7 +88,8 @@ def r1(run):
     callers = [(b, c) for (b, c) in C.callers_of(run.facts, C.INSERT_FRAME) if run.facts.enclosing_fn(b) not in wrappers]
     for w in wrappers:
         callers += C.callers_of(run.facts, w)    # the frame a forwarding wrapper stores is its caller's: the guard is owed there
-    run.floor("Store::insert_frame call sites", len(callers), 2)
+    spliced_writers = [b0 for b0 in run.facts.all_bodies() if b0.def_ != C.INSERT_FRAME and q.live_calls(b0, C.BATCH_INSERT)]
+    run.floor("Store::insert_frame call sites", len(callers) + len(spliced_writers), 2)
     for (b, c) in callers:
         fn = run.facts.enclosing_fn(b)
         run.touch(b)
